@@ -19,6 +19,7 @@ import bitstring
 from rv import util
 from rv.util import call, exc_matches
 
+AMBIENT = ['bytealigned', 'mxfp_overflow']      # options this property does not depend on: a quarter of the cases run with them switched
 PROP = 'C18'
 SHARDS = {'quick': 4, 'thorough': 16}
 RULE = ("enumerated: every code b B h H l L i I q Q e f d x prefix > < = @ x count 1-4 x value class "
